@@ -1,6 +1,7 @@
 (* C04 — facts about the flat reference reading (Exp/FlatSem.v):
-   frun_run_rows   on strings, a flat sheet read by FlatSem.frun is read the same way by RowSem.run_rows;
-   frun_rename     renaming the row ids injectively (on the ids of the sheet) does not change the nodes. *)
+   fsem_rowsem     on strings, the meaning RowSem.rowsem of a flat sheet is the flow of the nodes FlatSem.fsem makes, in the
+                   order in which they were made (RefFlowFacts.flat_flow);
+   fsem_rename     renaming the row ids injectively (on the ids of the sheet) does not change the nodes. *)
 From Coq Require Import List NArith Bool Arith Lia.
 From RPFT Require Import Base.Sexp Base.PyStr Base.PyStrFacts Base.SexpEq Flow.Lts Flow.Flow Flow.RowSem Exp.FlatSem Exp.RefFlowFacts.
 Import ListNotations.
